@@ -7,13 +7,20 @@ import (
 	"fmt"
 	"os"
 	"reflect"
+	"runtime"
 	"sort"
 	"strings"
+	"sync"
+	"sync/atomic"
+	"time"
 )
 
 // Observe records a value for differential validation (interpreter vs native).
 func Observe(label string, v interface{}) {
-	cur.observes = append(cur.observes, label+"="+FmtObs(v))
+	o := label + "=" + FmtObs(v)
+	rtMu.Lock()
+	cur.observes = append(cur.observes, o)
+	rtMu.Unlock()
 }
 
 // SameValue is structural equality of two values.
@@ -92,12 +99,92 @@ func fmtObsV(rv reflect.Value) string {
 	return "<" + rv.Kind().String() + ">"
 }
 
+// ---- goroutines of threaded harnesses (native: real goroutines behind a start barrier)
+
+var (
+	thrMu    sync.Mutex
+	thrWG    sync.WaitGroup
+	thrStart chan struct{}
+	thrPanic string
+	yieldN   uint32
+)
+
+var thrStarted bool
+
+func resetThreads() {
+	thrStart = make(chan struct{})
+	thrStarted = false
+	thrPanic = ""
+}
+
+// Go starts a goroutine that waits for WaitAll's start signal.
+func Go(f func()) {
+	thrWG.Add(1)
+	start := thrStart
+	go func() {
+		defer thrWG.Done()
+		defer func() {
+			if r := recover(); r != nil {
+				switch r.(type) {
+				case assumeFail:
+				case assertFail:
+				default:
+					thrMu.Lock()
+					if thrPanic == "" {
+						thrPanic = fmt.Sprint(r)
+					}
+					thrMu.Unlock()
+				}
+			}
+		}()
+		<-start
+		f()
+	}()
+}
+
+// StartAll releases the goroutines started with Go and gives them a moment to
+// reach their first blocking point.
+func StartAll() {
+	if !thrStarted {
+		thrStarted = true
+		close(thrStart)
+	}
+	time.Sleep(200 * time.Microsecond)
+}
+
+// WaitAll releases the goroutines together, waits for them and gives the
+// closers spawned by the code under test a moment to finish.
+func WaitAll() {
+	if !thrStarted {
+		thrStarted = true
+		close(thrStart)
+	}
+	thrWG.Wait()
+	time.Sleep(2 * time.Millisecond)
+	thrMu.Lock()
+	p := thrPanic
+	thrMu.Unlock()
+	if p != "" {
+		panic(p)
+	}
+}
+
+func nativeYield() {
+	n := atomic.AddUint32(&yieldN, 1)
+	if n%3 == 0 {
+		time.Sleep(time.Duration(n%7) * 20 * time.Microsecond)
+	} else {
+		runtime.Gosched()
+	}
+}
+
 // ---- native batch runner
 
 type Case struct {
 	Harness string            `json:"harness"`
 	Shape   int               `json:"shape"`
 	Assign  map[string]uint64 `json:"assign"`
+	Repeat  int               `json:"repeat"`
 }
 
 type CaseResult struct {
@@ -126,6 +213,10 @@ func RunBatch(path string, reg map[string]func(int)) error {
 	results := make([]CaseResult, len(cases))
 	for i, c := range cases {
 		results[i] = runCase(c, reg)
+		// schedule-dependent cases: repeat until the failure shows
+		for k := 1; k < c.Repeat && results[i].Fail == "" && results[i].Panic == ""; k++ {
+			results[i] = runCase(c, reg)
+		}
 	}
 	out, _ := json.Marshal(results)
 	return os.WriteFile(path+".out", out, 0o644)
@@ -139,6 +230,7 @@ func runCase(c Case, reg map[string]func(int)) (res CaseResult) {
 		return
 	}
 	cur = &caseState{assign: c.Assign, counters: map[string]int{}, reached: map[string]bool{}}
+	resetThreads()
 	defer func() {
 		if r := recover(); r != nil {
 			switch x := r.(type) {
@@ -160,5 +252,8 @@ func runCase(c Case, reg map[string]func(int)) (res CaseResult) {
 	}()
 	f(c.Shape)
 	cur.reached["<end>"] = true
+	if cur.fail != "" {
+		res.Fail = cur.fail // an assertion failed in a harness goroutine
+	}
 	return
 }
